@@ -1,41 +1,21 @@
 (* Boolean checkers evaluated by vm_compute inside generated case files.
-   They run the *generated* definitions (gen/Src_query.v) on the carriers
+   Checkers that run the *generated* query API are in CaseDefsQuery.v; the carriers are
    FOps (exact lane: bit-exact) and QOps (tolerance lane: exact rationals). *)
 From Coq Require Import List ZArith QArith Qreduction Bool.
 From Coq Require PrimFloat.
 From ML Require Import Ops Vec NP QIO FloatIO.
-From MLgen Require Import Src_query.
 Import ListNotations.
 
 Notation fl := PrimFloat.float.
 
-(* ---------------- exact lane (binary64, every intermediate exactly representable) ------------- *)
+(* ---------------- helpers shared with CaseDefsQuery.v -------------------------------------- *)
 Definition pt (tp : list (list fl)) (i : nat) : list fl := nth i tp [].
 
-Definition c01_exact (L : list (list fl)) (P : list (list (list fl)))
-    (dist score mf mfsq : list fl) : bool :=
-  fveq (@Src_query.pair_distance FOps L P) dist &&
-  fveq (@Src_query.pair_score FOps L P) score &&
-  fveq (map (fun tp => @Src_query.metric_fun FOps L (pt tp 0) (pt tp 1) false) P) mf &&
-  fveq (map (fun tp => @Src_query.metric_fun FOps L (pt tp 0) (pt tp 1) true) P) mfsq &&
-  forallb ffinite dist.
-
-Definition c02_exact (d : nat) (L X : list (list fl)) (P : list (list (list fl)))
-    (tr M : list (list fl)) (sp : list fl) : bool :=
-  fmeq (@Src_query.transform FOps L X) tr &&
-  fmeq (@Src_query.get_mahalanobis_matrix FOps d L) M &&
-  fveq (@Src_query.score_pairs FOps L P) sp &&
-  (* cross-views, computed by the model on the implementation's own M and transform *)
-  fveq (map (fun tp => PrimFloat.sqrt (@quadform FOps M (@vsub FOps (pt tp 1) (pt tp 0)))) P) sp.
-
-(* ---------------- tolerance lane (exact rationals) ------------------------------------------- *)
-(* with QOps, osqrt is the identity, so the generated pair_distance denotes the SQUARED distance *)
 Definition sq (a : Q) : Q := Qred (a * a).
 
 Definition absbound (L : list (list Q)) (x x' : list Q) : Q :=
   @vsumsq QOps (@mvmul QOps (mabsQ L) (vabsQ (@vsub QOps x' x))).
 
-(* implementation value d (None = not finite) against the exact squared distance *)
 Definition dist_ok (tol : Q) (L : list (list Q)) (tp : list (list Q)) (q : Q) (d : option Q) : bool :=
   match d with
   | None => false
@@ -44,49 +24,9 @@ Definition dist_ok (tol : Q) (L : list (list Q)) (tp : list (list Q)) (q : Q) (d
       Qle_bool (qabs (Qred (sq dv - q))) (Qred (tol * absbound L (nth 0 tp []) (nth 1 tp [])))
   end.
 
-Definition c01_tol (L : list (list Q)) (P : list (list (list Q))) (dist mf : list (option Q)) : bool :=
-  let qs := @Src_query.pair_distance QOps L P in
-  all2 (fun tq d => dist_ok tol_1e12 L (fst tq) (snd tq) d) (combine P qs) dist &&
-  all2 (fun tq d => dist_ok tol_1e12 L (fst tq) (snd tq) d) (combine P qs) mf &&
-  (* the closure's own formula (u - v, squared flag) gives the same exact number *)
-  all2 qeqb (map (fun tp => @Src_query.metric_fun QOps L (nth 0 tp []) (nth 1 tp []) true) P) qs.
-
 Definition entry_ok (tol : Q) (m a : Q) (v : option Q) : bool :=
   match v with None => false | Some x => Qle_bool (qabs (Qred (x - m))) (Qred (tol * a)) end.
 
-Definition c02_tol (d : nat) (L X : list (list Q)) (tr M : list (list (option Q))) : bool :=
-  let trm := @Src_query.transform QOps L X in
-  let tra := @Src_query.transform QOps (mabsQ L) (mabsQ X) in
-  let Mm := @Src_query.get_mahalanobis_matrix QOps d L in
-  let Ma := @Src_query.get_mahalanobis_matrix QOps d (mabsQ L) in
-  all2 (fun ma row => all2 (fun p v => entry_ok tol_1e12 (fst p) (snd p) v) (combine (fst ma) (snd ma)) row)
-       (combine trm tra) tr &&
-  all2 (fun ma row => all2 (fun p v => entry_ok tol_1e12 (fst p) (snd p) v) (combine (fst ma) (snd ma)) row)
-       (combine Mm Ma) M.
-
-(* ---------------- C04 ---------------------------------------------------------------------- *)
-From ML Require Import Classify.
-
-Definition c04_pairs_exact (L : list (list fl)) (thr : fl) (P : list (list (list fl)))
-    (dec : list fl) (pred : list Z) : bool :=
-  fveq (@Src_query.pairs_decision_function FOps L P) dec &&
-  zveq (@Src_query.pairs_predict FOps L thr P) pred.
-
-Definition c04_trip_exact (L : list (list fl)) (T : list (list (list fl)))
-    (dec : list fl) (pred : list Z) (score : fl) : bool :=
-  fveq (@Src_query.triplets_decision_function FOps L T) dec &&
-  zveq (@Src_query.triplets_predict FOps L T) pred &&
-  feq (@Src_query.triplets_score FOps L T) score.
-
-Definition c04_quad_exact (L : list (list fl)) (Qs : list (list (list fl)))
-    (dec : list fl) (pred : list Z) (score : fl) : bool :=
-  fveq (@Src_query.quadruplets_decision_function FOps L Qs) dec &&
-  zveq (@Src_query.quadruplets_predict FOps L Qs) pred &&
-  feq (@Src_query.quadruplets_score FOps L Qs) score.
-
-(* ROC-AUC of the implementation against the Mann-Whitney count on exact squared distances *)
-Definition c04_auc (L : list (list Q)) (P : list (list (list Q))) (y : list Z) (auc_impl : Q) : bool :=
-  qwithin (auc_mw (@Src_query.pair_distance QOps L P) y) auc_impl tol_1e12.
 
 (* ---------------- C16 ---------------------------------------------------------------------- *)
 From ML Require Import Calibrate.
